@@ -375,7 +375,7 @@ PROPS = {
     'C08': {'legs': [V('env'), V('menv')], 'design': '§5 C08'},
     # C09, the contract-expressible part (runner threading, progress-bar branches, step's use of the generator) + a bounded stand-in across OS processes
     'C09': {'legs': [V('runner', canary=False, note='the runners have no preconditions (nothing to be vacuous about)'), V('env', tags=['C09']), V('menv', tags=['C09']),
-                     R('determinism', ['determinism'], '4 compositions of the built-in agents through the derive macros (single-asset: momentum + noise + random, two noise sets; two-asset: random + noise + momentum + random; ticks 1 / 2 / 5), 6 seeds each, 40-80 steps through the real sim_runner / market_sim_runner: the digest of every order, trade, recorded series and per-step traded volume is compared between two runs in one process, a run in a SEPARATE OS process, and a run in a separate process through the progress-bar branch; the seeds of a composition must not all give the same run; every run must produce orders')],
+                     R('determinism', ['determinism'], '5 compositions of the built-in agents through the derive macros (single-asset: momentum + noise + random, two noise sets; two-asset: random + noise + momentum + random; ticks 1 / 2 / 5), 6 seeds each (0, 2^64-1, 2^32 and three derived from the base seed), 40-80 steps, and 255 steps for a composition of random agents only, through the real sim_runner / market_sim_runner: the digest of every order, trade, recorded series and per-step traded volume is compared between two runs in one process, a run in a SEPARATE OS process, and a run in a separate process through the progress-bar branch; the seeds of a composition must not all give the same run; every run must produce orders')],
             'design': '§5 C09'},
     'C10': {'legs': [V('env'), V('menv'), V('book'), V('market')], 'design': '§5 C10'},
     'C11': {'legs': [V('env'), V('menv'), V('book')], 'design': '§5 C11'},
